@@ -6,6 +6,7 @@ from ..report import AnalysisError
 from ..srcmodel import unparse, norm, walk_no_nested, calls_in
 from .common import is_method_call, get_kw, recv_of, cfg_of, only_reached_from, thorough
 from . import evalrules as er
+from . import unitrules
 from . import tr
 
 from .common import Guard  # noqa: E402
@@ -16,6 +17,7 @@ DECIDED = [
     'R2: XRefNode.on_evaluate_impl returns ctx.evaluate_node(...) unmodified (alias, not copy) and evaluate_node memoises by node identity (C10.R1).',
     'R3: the lookup inside the chasing loop is strict (incomplete left false) and KeyError is converted into a raised error.',
     'R4: NodePath.split_path validates prefix/gaps inside the match loop and the unparsed suffix after it (both raise ValueError); get_list_path parses text with validation on.',
+    'R5: errors.Error.__init__ evaluated for every error class x second node x known / unknown source position: building an error never raises (a failure is reported as the error the property names, not as an unrelated exception) and the PyYAML base constructor gets message, note and marks of the right nodes.',
 ]
 UNDECIDED = ['the path grammar itself (regex semantics);', 'forward/backward order independence as data;', 'recursive cycles through containers rely on CPython\'s recursion limit (stated assumption).']
 ASSUMPTIONS = ['recursion (as opposed to loops) terminates through RecursionError, which evaluation reports as EvalError']
@@ -397,11 +399,13 @@ def check(repo, run, tier):
     g(r2r3, repo, run)
     g(er.memo_discipline, repo, run, 'C09.R2')
     g(r4, repo, run)
+    g(unitrules.errors_constructible, repo, run, 'C09.R5')
     g.done()
 
 
 def mutants(repo):
     return [
+        Mutant('error-position-of-config-nodes', lambda r: in_func(r, 'Error.__init__', "if self.stage == 'parsing':", "if self.stage != 'parsing':"), ['C09.R5']),
         Mutant('F4-reverted-no-cycle-guard', lambda r: in_func(r, 'XRefNode.ayns.on_evaluate_impl',
                "            if id(curr) in visited:\n                raise ValueError(f'Circular reference detected while following a chain of references: {chain}')\n            visited.add(id(curr))\n", ""), ['C09.R1']),
         Mutant('cycle-guard-only-start-node', lambda r: in_func(r, 'XRefNode.ayns.on_evaluate_impl',
